@@ -34,6 +34,7 @@ type c14Scenario struct {
 	Results  int      `json:"results"`
 	Unique   bool     `json:"unique_logger"`
 	ChanCap  int      `json:"chan_cap"`
+	ViaRC    bool     `json:"through_result_chan,omitempty"` // results are handed over with scan.ResultChan.Put (capacity = chan_cap, at least 1)
 	Flush    string   `json:"flush_interval"`
 	PauseMax string   `json:"producer_pause_below,omitempty"`
 	OutStall string   `json:"output_stall,omitempty"`
@@ -363,6 +364,12 @@ func runC14(t *testing.T, c simrt.Chooser, o Opts) *Out {
 	sc.Results = p.pick("nresults", 0, 1, 2, 5, 20, 60)
 	sc.Unique = p.pct("unique", 40)
 	sc.ChanCap = p.pick("cap", 0, 1, 1000)
+	if p.pct("viarc", 30) {
+		// the way the scans hand results over: scan.ResultChan (two buffers and a relay goroutine);
+		// small capacities and a stalling output keep it backed up
+		sc.ViaRC = true
+		sc.ChanCap = p.pick("rccap", 1, 2, 8, 1000)
+	}
 	flush := []time.Duration{time.Millisecond, 100 * time.Millisecond, time.Second}[p.n("flush", 3)]
 	sc.Flush = flush.String()
 	var pauseMax time.Duration
@@ -390,6 +397,7 @@ func runC14(t *testing.T, c simrt.Chooser, o Opts) *Out {
 		// de-duplication over a large population: every host of 10.0.0.0/14 once, in order, with a
 		// repeat of an earlier host after every eighth one
 		sc.Type, sc.Unique, sc.ChanCap, sc.Results = "arp", true, 1000, 0
+		sc.ViaRC = false
 		pauseMax, stallEvery, stallFor = 0, 0, 0
 		sc.PauseMax, sc.OutStall = "", ""
 		mk := func(a uint32) {
@@ -439,6 +447,23 @@ func runC14(t *testing.T, c simrt.Chooser, o Opts) *Out {
 		}
 		if sc.Unique {
 			logger = log.NewUniqueLogger(logger)
+		}
+		if sc.ViaRC {
+			rc := scan.NewResultChan(ctx, sc.ChanCap)
+			simrt.Go("c14.producer", func() {
+				for _, res := range results {
+					if pauseMax > 1 && r.ChooseWorld("c14.dopause", 3) == 0 {
+						simrt.Sleep("c14.pause", worldDur("c14.pausefor", pauseMax))
+					}
+					rc.Put(res)
+				}
+				// everything handed over is printed long before this; the cancel ends the logger
+				simrt.Sleep("c14.settle", time.Duration(len(results)+2)*(stallFor+flush)+time.Second)
+				simrt.Cancel("c14.cancel", cancel)
+			})
+			logger.LogResults(ctx, rc.Chan())
+			done = true
+			return
 		}
 		ch := make(chan scan.Result, sc.ChanCap)
 		simrt.Go("c14.producer", func() {
